@@ -116,6 +116,13 @@ func ZZH_C01_BuiltPackage() {
 		zzvAssert(ok, "Save yields a readable archive")
 		zzhCheckPackage(onDisk, "Save")
 	}
+	if zzvBool() {
+		// the bytes handed out stay that package when another (smaller) document is serialised
+		_, err := New().ToBytes()
+		zzvAssert(err == nil, "ToBytes succeeds")
+		again, ok := zzhReadZipBytes(data)
+		zzvAssert(ok && zzhSameParts(pkg, again), "bytes returned by ToBytes are still the same readable archive after another document was serialised")
+	}
 	zzvReach("checked")
 }
 
